@@ -592,7 +592,7 @@ TECHNIQUE = ('contracts on tnetstrings.parse_payload / dump / parse (scalars and
 TRUSTED = ['T2 decimal-text axioms (digits/undigits) and utf-8 inverse pair',
            'structural induction over finite nested values (meta-level): base cases = scalar contracts, step = container contracts',
            'dump is a deterministic function of the value (enc), parse of the value it returns is compared by identity of the abstract element id']
-ASSUMPTIONS = ['float payloads and the streaming parser are only in the bounded tier', 'dictionary keys are pairwise distinct 7-bit text (dump_dict encodes keys as ascii)']
+ASSUMPTIONS = ['float payloads and the streaming state machine are only in the bounded tier (of the streaming parser the payload conversion tnet_parser.process for the types , $ ~ is under contract)', 'decode with a codec other than utf-8 / latin-1 / ascii: an uninterpreted function per canonical codec name', 'dictionary keys are pairwise distinct 7-bit text (dump_dict encodes keys as ascii)']
 
 
 def values(rng, depth=0):
